@@ -434,6 +434,9 @@ def run_shard(ctx: ShardCtx) -> ShardResult:
                         p_['start'] = rng.choice([6.5, 10.75, 2.25, 5.5, 9.9, 13.125,
                                                   2, 6, 10, 14, 18, 22, 26, 30, 21.99, 22.01])
                         p_['duration'] = min(p_['duration'], SRC_DUR[p_['stream']] - p_['start'] - 2)
+                        if p_['duration'] < 4:
+                            # (the shorter sources: an offset of 30 s leaves nothing of a 32 s stream)
+                            p_['start'], p_['duration'] = rng.choice([2, 6.5, 10]), 16
                 info = add_mps_db(env, definition['name'], [
                     {'pid': p_['pid'], 'stream': p_['stream'], 'start': p_['start'], 'duration': p_['duration'],
                      'tracks': [(t, tid, role[t]) for t, tid in p_['tracks']]} for p_ in definition['periods']])
